@@ -279,6 +279,165 @@ static void exec_c08(const void *k, res_t *r, const runcfg_t *cfg) {
         }
 }
 
+/* ---------- C05: every violation reported exactly once with the returned code ---------- */
+static int gen_c05(cs_t *cs, void *k, const runcfg_t *cfg) { gcase_t *c = k; int ok = gc_gen(cs, c, cfg, 5); c->guard = G_NA; return ok; }
+
+/* definite violations of documented constraints (clear-cut predicates only); fills acceptable codes */
+/* the doc defines a zero-length request as EOK (its priority against other violations is not stated): not modelled */
+static int zero_length_request(const gcase_t *c, const row_t *row) {
+    if ((row->fl & F_ZEROLEN_NOOP) && c->slen == 0) return 1;
+    if ((row->fl & F_SLEN) && c->slen == 0 && (row->fam == FAM_COPY || row->fam == FAM_CAT || row->fam == FAM_INPLACE)) return 1;
+    if ((row->fl & F_N) && c->n == 0 && (row->fam == FAM_FILL || row->fam == FAM_MEMCPY)) return 1;
+    if (row->fam == FAM_INPLACE && row->w == 4 && c->dmax == 0) return 1; /* wcslwr_s/wcsupr_s: "EOK ... or slen = 0" */
+    return 0;
+}
+static int definite_violation(const gcase_t *c, const row_t *row, long *codes, int *ncodes) {
+    int n = 0;
+    size_t dbytes = c->dmax * (size_t)row->du;
+    int has_out = row->out_kind != OUT_NONE || row->ret_kind == RK_PTR_ERRP;
+#define ADD(code) do { if (n < 12) codes[n++] = (code); } while (0)
+    *ncodes = 0;
+    if (zero_length_request(c, row)) return 0;
+    if (row->ret_kind == RK_LEN || row->ret_kind == RK_BOOL) return 0; /* no error return channel: only the generic invariants apply */
+    if (c->dest_null) ADD(ESNULLP);
+    if ((row->fl & F_SRC) && c->src_null) ADD(ESNULLP);
+    if (has_out && c->out_null) ADD(ESNULLP);
+    if (c->dmax == 0 && !(row->fl & F_DMAX_ZERO_OK)) ADD(ESZEROL);
+    if (c->dmax > row->dmax_max) ADD(ESLEMAX);
+    if (c->dbos && (c->dmax > (size_t)-1 / (size_t)row->du || dbytes > c->dtrue)) { ADD(EOVERFLOW); ADD(ESLEMAX); }
+    if ((row->fl & F_SLEN) && c->slen > row->dmax_max * (size_t)row->du / (size_t)row->su) ADD(ESLEMAX);
+    if ((row->fl & F_N) && row->fam != FAM_QUERY && c->n > row->dmax_max) ADD(ESLEMAX);
+    if ((row->fl & F_SLEN) && (row->fl & F_SLEN_NZ) && c->slen == 0) ADD(ESZEROL);
+    if ((row->fl & F_VAL255) && c->val > 255) ADD(ESLEMAX);
+    if (n) {
+        /* other codes a simultaneous violation may legitimately produce first */
+        if ((row->fl & F_SLE_DMAX) && c->slen * (size_t)row->su > dbytes) { ADD(ESNOSPC); ADD(ESLEMAX); }
+        if ((row->fl & F_NLE_DMAX) && c->n * (size_t)row->su > dbytes) { ADD(ESNOSPC); ADD(ESLEMAX); }
+        if ((row->fl & F_SRCBOS) && c->sbos) { ADD(EOVERFLOW); ADD(ESLEMAX); }
+        ADD(ESUNTERM); ADD(ESNOSPC); ADD(ESOVRLP);
+    }
+#undef ADD
+    *ncodes = n;
+    return n > 0;
+}
+
+/* benign by construction: nothing documented is violated (conservative: returns 0 when unsure) */
+static int benign(const gcase_t *c, const row_t *row) {
+    size_t n = c->dmax * (size_t)row->du / (size_t)row->w; /* dest elements declared */
+    size_t delems = c->dtrue / (size_t)row->w;
+    int has_out = row->out_kind != OUT_NONE || row->ret_kind == RK_PTR_ERRP;
+    if (c->dest_null || ((row->fl & F_SRC) && c->src_null) || (has_out && c->out_null)) return 0;
+    if (c->dkind != DK_EXACT && c->dkind != DK_ROOMY) return 0;
+    if (c->dmax == 0 || c->dmax > row->dmax_max || n > delems) return 0;
+    if ((row->fl & F_DIN) && !(c->dcontent == DC_STR && c->dlen < n)) return 0;
+    if (zero_length_request(c, row)) return 0;
+    if ((row->fl & F_VAL255) && (c->val > 255 || c->val < 0)) return 0;
+    if ((row->fl & F_VAL) && row->w == 4 && (c->val > 0x10ffff || c->val < 0)) return 0;
+    if ((row->fl & F_N) && c->n > n) return 0;
+    if ((row->fl & F_N) && c->n == 0 && row->fam != FAM_FILL) return 0;
+    if (row->fl & F_SRC) {
+        if (row->fl & F_SLEN) {
+            if (c->slen == 0 || c->slen > row->dmax_max) return 0;
+            if (c->slen * (size_t)row->su > c->strue) return 0;          /* keep slen within the object (srcbos) */
+            if ((row->fl & F_SLE_DMAX) && c->slen * (size_t)row->su > c->dmax * (size_t)row->du) return 0;
+        }
+        if (row->fl & F_SRCSTR) {
+            if (c->scontent != SC_STR) return 0;
+            if ((row->fl & F_SLEN) && c->slen_true >= c->slen) return 0; /* terminated inside slen */
+            switch (row->fam) {
+            case FAM_COPY: if (c->slen_true + 1 > n) return 0; break;
+            case FAM_CAT: if (c->dlen + c->slen_true + 1 > n) return 0; break;
+            default: if (c->slen_true >= n && !(row->fl & F_SLEN)) return 0; break;
+            }
+        }
+    }
+    if (!strcmp(row->name, "memccpy_s") && c->n >= n) return 0; /* n == dmax without the stop character is ESNOSPC by design */
+    if (!strcmp(row->name, "strispassword_s")) return 0; /* has its own length window: not modelled here */
+    if (!strcmp(row->name, "strrchr_s") && c->dlen == 0) return 0; /* doc: ESZEROL for the empty string */
+    if (!strcmp(row->name, "strncat_s") || !strcmp(row->name, "wcsncat_s")) { if (c->slen == 0) return 0; }
+    return 1;
+}
+
+static void exec_c05(const void *k, res_t *r, const runcfg_t *cfg) {
+    const gcase_t *c = k;
+    const row_t *row = &g_rows[c->row];
+    long codes[12];
+    int ncodes = 0, dv, hc, failed, i;
+    long code;
+    (void)cfg;
+    gc_run(c, &X);
+    r->hash = gc_hash(c);
+    common_labels(c, r);
+    dv = definite_violation(c, row, codes, &ncodes);
+    if (X.faulted) {
+        /* a size above the RSIZE limit must be rejected before dest or src is touched */
+        if (X.sig == SIGSEGV && (c->dkind == DK_OVERMAX || ((row->fl & F_SLEN) && c->slen > row->dmax_max * (size_t)row->du / (size_t)row->su))) {
+            RES_VIOL(r, "C05:%s:touched-before-rejecting-oversize:%s", row->name, relclass(c));
+            RES_DETAIL(r, "%s fault at %s%+ld although a size argument exceeds the RSIZE limit", X.fault_write ? "store" : "load", bufname(X.fault_buf), X.fault_off);
+        } else res_label(r, "foreign-fault");
+        if (X.sig != SIGSEGV) r->fragile = 1;
+        return;
+    }
+    hc = X.h_str + X.h_mem;
+    failed = call_failed(row, &X);
+    code = call_code(row, &X);
+    r->nontrivial = dv || benign(c, row);
+    res_label(r, dv ? (ncodes >= 2 && codes[0] != codes[1] ? "viol:multiple" : "viol:definite") : (benign(c, row) ? "viol:none(benign)" : "viol:unmodelled"));
+    if (hc > 1) {
+        RES_VIOL(r, "C05:%s:handler-invoked-%d-times:%s", row->name, hc, relclass(c));
+        RES_DETAIL(r, "handler invoked %d times (codes %s,%s), returned %s", hc, codename(X.h_codes[0]), hc > 1 ? "..." : "", codename(code));
+        return;
+    }
+    if (hc == 1 && (row->ret_kind == RK_ERRNO || (row->ret_kind == RK_PTR_ERRP && X.a.errp))) {
+        if (code != X.h_code) {
+            RES_VIOL(r, "C05:%s:handler-code-%s-returned-%s:%s", row->name, codename(X.h_code), codename(code), relclass(c));
+            RES_DETAIL(r, "handler got %s but the call returned %s", codename(X.h_code), codename(code));
+            return;
+        }
+    }
+    if (hc == 1 && row->ret_kind == RK_LEN && X.a.ret < 0 && -X.a.ret != X.h_code) {
+        RES_VIOL(r, "C05:%s:handler-code-%s-returned-%ld:%s", row->name, codename(X.h_code), X.a.ret, relclass(c));
+        RES_DETAIL(r, "handler got %s but the call returned %ld", codename(X.h_code), X.a.ret);
+        return;
+    }
+    if (failed && hc == 0) {
+        RES_VIOL(r, "C05:%s:failure-%s-without-handler:%s", row->name, codename(code), relclass(c));
+        RES_DETAIL(r, "returned %s but no handler was invoked", codename(code));
+        return;
+    }
+    if (dv) {
+        int okc = 0;
+        if (!failed && !(row->ret_kind == RK_BOOL || row->ret_kind == RK_LEN)) {
+            RES_VIOL(r, "C05:%s:violation-not-reported:%s", row->name, relclass(c));
+            RES_DETAIL(r, "documented constraint violated (expected e.g. %s) but the call returned %s, handler calls %d", codename(codes[0]), codename(code), hc);
+            return;
+        }
+        if (hc == 0) {
+            RES_VIOL(r, "C05:%s:violation-without-handler:%s", row->name, relclass(c));
+            RES_DETAIL(r, "documented constraint violated (expected e.g. %s) but no handler was invoked; returned %s", codename(codes[0]), codename(code));
+            return;
+        }
+        for (i = 0; i < ncodes; i++) if (codes[i] == X.h_code) okc = 1;
+        if (!okc) {
+            RES_VIOL(r, "C05:%s:unexpected-code-%s:%s", row->name, codename(X.h_code), relclass(c));
+            RES_DETAIL(r, "violated constraint(s) allow %s.. but %s was reported", codename(codes[0]), codename(X.h_code));
+            return;
+        }
+        /* a size above the RSIZE limit is rejected before dest is touched */
+        if (c->dkind == DK_OVERMAX && !c->dest_null && memcmp(X.dest, X.dest_before, c->dtrue) != 0) {
+            RES_VIOL(r, "C05:%s:dest-written-before-rejecting-oversize:%s%s", row->name, relclass(c), c->dbos ? ":bos-known" : "");
+            RES_DETAIL(r, "dmax=%zu exceeds the limit %zu but dest was modified", c->dmax, row->dmax_max);
+            return;
+        }
+    } else if (benign(c, row)) {
+        if (hc != 0 || failed) {
+            RES_VIOL(r, "C05:%s:handler-on-valid-call-%s:%s", row->name, codename(hc ? X.h_code : code), relclass(c));
+            RES_DETAIL(r, "no documented constraint is violated but handler calls=%d, returned %s", hc, codename(code));
+            return;
+        }
+    }
+}
+
 static void g_init(const runcfg_t *cfg) { (void)cfg; gh_install(); }
 
 const module_t mod_C01 = {"C01", sizeof(gcase_t), 1, {3000000, 40000000}, g_init, gen_c01, exec_c01, gc_describe,
@@ -297,3 +456,7 @@ const module_t mod_C04 = {"C04", sizeof(gcase_t), 1, {2000000, 20000000}, g_init
 const module_t mod_C08 = {"C08", sizeof(gcase_t), 1, {2000000, 20000000}, g_init, gen_c08, exec_c08, gc_describe,
                           "generic rows documented to null the slack; dest dirty (non-zero everywhere / garbage behind an input terminator); "
                           "non-trivial = success with at least one slack element behind the terminator; distinct by decoded arguments minus content seed"};
+
+const module_t mod_C05 = {"C05", sizeof(gcase_t), 1, {3000000, 30000000}, g_init, gen_c05, exec_c05, gc_describe,
+                          "generic rows; arguments drawn independently from the violation classes (NULL, 0, >RSIZE limit, >known object size, bad value, slen/n relations) and from benign-by-construction operands; "
+                          "non-trivial = at least one definite documented violation, or a benign call with all pointers valid; distinct by decoded arguments minus content seed"};
